@@ -25,10 +25,10 @@ func (g *deepcopyGen) GenerateType(c gengo.Context, named *types.Named) error {
 		g.processed = map[*types.Named]bool{}
 	}
 
-	return g.generateType(c, named)
+	return g.generateType(c, named, false)
 }
 
-func (g *deepcopyGen) generateType(c gengo.Context, named *types.Named) error {
+func (g *deepcopyGen) generateType(c gengo.Context, named *types.Named, asDep bool) error {
 	// a field of type Box[int] depends on the methods of the generic Box
 	named = named.Origin()
 
@@ -44,7 +44,11 @@ func (g *deepcopyGen) generateType(c gengo.Context, named *types.Named) error {
 
 	tags, _ := c.Doc(named.Obj())
 	if !gengo.IsGeneratorEnabled(g, tags) {
-		return nil
+		// the copy of an enabled type calls the methods of its dependencies,
+		// so they are needed unless the dependency opted out
+		if _, optOut := tags["gengo:"+g.Name()]; !asDep || optOut {
+			return nil
+		}
 	}
 
 	interfaces := ""
@@ -150,7 +154,7 @@ func (in *@Type) DeepCopyInto(out *@Type) {
 	}
 
 	for i := range defers {
-		if err := g.generateType(c, defers[i]); err != nil {
+		if err := g.generateType(c, defers[i], true); err != nil {
 			return err
 		}
 	}
